@@ -207,6 +207,47 @@ def foreign_tmpdir(path):
     return None
 
 
+def run_locale_scenario(kind, cfgbackend=False):
+    """Writer and reader processes under LC_ALL=C without UTF-8 mode.  -> CrashTrace records: one
+    per operation of localeworker.OPS, `final' = what the restarted process reads."""
+    import subprocess
+    import sys
+    import json as _json
+    from . import localeworker as lw
+    base = mkscratch("xl-")
+    try:
+        path = os.path.join(base, "store")
+        st = create_store(kind, path, cfgbackend)
+        apply_op(st, {"t": "put", "n": "a.ics", "data": gamma.ics_event("locale-prior", "prior")})
+        del st
+        env = dict(os.environ, LC_ALL="C", LANG="C", PYTHONUTF8="0", PYTHONCOERCECLOCALE="0", PYTHONIOENCODING="utf-8")
+
+        def run(phase):
+            p = subprocess.run([sys.executable, "-X", "utf8=0", "-m", "harness.localeworker", phase, kind, path],
+                               env=env, stdout=subprocess.PIPE, stderr=subprocess.PIPE, timeout=120)
+            if p.returncode != 0 or not p.stdout:
+                raise RuntimeError("locale worker failed: " + p.stderr.decode("utf-8", "replace")[-600:])
+            return _json.loads(p.stdout.decode("utf-8"))
+        pre = run("read")["obs"]
+        w = run("write")
+        final = run("read")
+        # expected state: every acknowledged operation in effect, every refused one without trace
+        vis = dict(pre["vis"])
+        props = dict(pre["props"])
+        for o, r in zip(lw.OPS, w["res"]):
+            if r:
+                continue
+            if o["t"] == "prop":
+                props[o["p"]] = lw.H(("prop", o["v"]))
+            else:
+                vis[o["n"]] = None       # present, content as served (not compared byte for byte)
+        return {"kind": kind + ("-gitcfg" if cfgbackend else ""), "encoding": w["encoding"], "res": w["res"],
+                "same_process": w["obs"], "final": final["obs"], "want_props": props,
+                "want_names": sorted(vis), "ops": [dict(o) for o in lw.OPS]}
+    finally:
+        shutil.rmtree(base, ignore_errors=True)
+
+
 def run_op_with_images(kind, prep, op, C, cfgbackend=False, warm=(), interrupts=0, seed=0, foreign_tmp=False):
     """prep: list of operations establishing the prior contents; op: the operation whose
     crash points are enumerated.  Returns (records, gates)."""
